@@ -59,6 +59,7 @@ package crypto
 // Encrypt: the output is exactly the sequence of frames the specification prescribes for the whole input, under the
 // session's encrypt key, with consecutive counters starting at encryptCount, which advances by the number of frames.
 //@ func (s *secureSession) Encrypt(r) (out, err)
+//@   refines "github.com/brutella/hc/crypto.Encrypter.Encrypt"
 //@   requires s != nil && r != nil
 //@   assume nowrap
 //@   modifies s.encryptCount, stream(r)
@@ -92,3 +93,19 @@ package crypto
 //@     invariant rt: old(stream(r)) == enc_suf(dkey(), old(s.decryptCount), rtP(), 0, (len(rtP()) + 1023) / 1024) ==> s.decryptCount - old(s.decryptCount) <= (len(rtP()) + 1023) / 1024 && stream(r) == enc_suf(dkey(), old(s.decryptCount), rtP(), s.decryptCount - old(s.decryptCount), (len(rtP()) + 1023) / 1024) && stream(addr(buf)) == sub(rtP(), 0, ite(1024 * (s.decryptCount - old(s.decryptCount)) <= len(rtP()), 1024 * (s.decryptCount - old(s.decryptCount)), len(rtP()))) && suf_mark(dkey(), old(s.decryptCount), rtP(), s.decryptCount - old(s.decryptCount), (len(rtP()) + 1023) / 1024)
 //@     invariant key: seq(s.decryptKey) == dkey() && s.decryptCount >= old(s.decryptCount)
 //@     invariant buf: stream(addr(buf)) == pcat(old(s.decryptCount), s.decryptCount) && pmark(old(s.decryptCount), s.decryptCount)
+
+// ---- an encrypter seen through its interface: enckey(e) / enccnt(e) abstract the key and frame counter of the session
+//@ ghost enckey(ref) seq
+//@ ghost enccnt(ref) int
+//@ abstraction enckey(s) = seq(s.encryptKey)
+//@ abstraction enccnt(s) = s.encryptCount
+//@ invoke "github.com/brutella/hc/crypto.Encrypter.Encrypt"(e, r) (out, err)
+//@   requires r != nil
+//@   modifies *e, enccnt(e), stream(r)
+//@   ensures ok: err == nil && out != nil && fresh(out)
+//@   ensures wire: stream(out) == enc_pre(enckey(e), old(enccnt(e)), old(stream(r)), (len(old(stream(r))) + 1023) / 1024)
+//@   ensures count: enccnt(e) == old(enccnt(e)) + (len(old(stream(r))) + 1023) / 1024 && enckey(e) == old(enckey(e))
+//@ invoke "github.com/brutella/hc/crypto.Decrypter.Decrypt"(d, r) (out, err)
+//@   requires r != nil
+//@   modifies *d, stream(r)
+//@   ensures err != nil ==> out == nil
